@@ -65,6 +65,9 @@ def corpus_text_files(b: str) -> T.Dict[str, bytes]:
                 continue
             if r in ('compile_commands.json',) or r.startswith('meson-logs'):
                 continue
+            # housekeeping files written once when the directory is created (only if absent), not by configuration proper
+            if r in ('.gitignore', '.hgignore', 'CACHEDIR.TAG'):
+                continue
             try:
                 if os.path.islink(p) or os.path.getsize(p) > 4_000_000:
                     continue
@@ -326,6 +329,9 @@ def run_project(job: T.Tuple[int, str, str, T.List[int], int]) -> dict:
         ('configure-there-and-back', [['setup', b, src] + OPTS, ['configure', b, '-Dlvl=z', '-Dname=w'],
                                       ['configure', b, '-Dlvl=y', '-Dname=v'], ['setup', '--reconfigure', b, src]]),
         ('wipe', [['setup', b, src] + OPTS, ['setup', '--wipe', b, src]]),
+        # the wipe itself re-sets options that were recorded with other values
+        ('wipe-with-new-values', [['setup', b, src, '-Dname=other', '-Dlvl=x', '-Dspx:sval=zzz', pc_a],
+                                  ['setup', '--wipe', b, src] + OPTS]),
         # a subproject is configured for the first time by a reconfigure
         ('subproject-first-reached-by-reconfigure', [['setup', b, src] + OPTS + ['-Dwith_spy=false'],
                                                      ['setup', '--reconfigure', b, src, '-Dwith_spy=true']]),
@@ -338,7 +344,7 @@ def run_project(job: T.Tuple[int, str, str, T.List[int], int]) -> dict:
         ('pkg-config-path-changed-by-configure', [['setup', b, src] + OPTS0 + [pc_a], ['configure', b, pc_b], ['setup', '--reconfigure', b, src]]),
     ]
     if tier == 'quick':
-        hists = [hists[rng.randrange(3)], hists[3], hists[4], hists[5 + rng.randrange(2)]]
+        hists = [hists[rng.randrange(4)], hists[4], hists[5], hists[6 + rng.randrange(2)]]
     for name, cmds in hists:
         fresh()
         ok = True
